@@ -48,6 +48,7 @@ struct Lower
     int tempCounter = 0;
     const CXXRecordDecl* curLambdaThis = nullptr;
     int loopCounter = 0;
+    std::string curLambdaThisField;
     std::string curFn;
     bool curInStd = false;
     llvm::json::Array jFuncs, jRecs;
@@ -547,7 +548,7 @@ struct Lower
         if(auto* BL = dyn_cast<CXXBoolLiteralExpr>(E)) return BL->getValue() ? "((_Bool)1)" : "((_Bool)0)";
         if(isa<CXXNullPtrLiteralExpr>(E) || isa<GNUNullExpr>(E)) return "((void *)0)";
         if(auto* FL = dyn_cast<FloatingLiteral>(E)) { llvm::SmallString<32> s; FL->getValue().toString(s, 0, 0); return "((" + ctype(FL->getType()) + ")" + std::string(s.str()) + ")"; }
-        if(isa<CXXThisExpr>(E)) return "self";
+        if(isa<CXXThisExpr>(E)) return curLambdaThisField.empty() ? "self" : "((*self)." + curLambdaThisField + ")";
         if(auto* U = dyn_cast<UnaryExprOrTypeTraitExpr>(E))
         {
             Expr::EvalResult R; if(!E->EvaluateAsInt(R, C)) die("sizeof eval", E, &C);
@@ -796,6 +797,14 @@ struct Lower
             return;
         }
         temps.clear(); tempCounter = 0; loopCounter = 0; curFn = funcName(F); curInStd = inStd(F);
+        curLambdaThisField.clear();
+        if(auto* MD = dyn_cast<CXXMethodDecl>(F); MD && MD->getParent()->isLambda())
+        {
+            // inside a lambda body `this` is the captured enclosing object, not the closure
+            llvm::DenseMap<const VarDecl*, FieldDecl*> Caps; FieldDecl* ThisCap = nullptr;
+            MD->getParent()->getCaptureFields(Caps, ThisCap);
+            if(ThisCap) curLambdaThisField = fieldName(ThisCap);
+        }
         curRetRef = F->getReturnType()->isReferenceType();
         std::ostringstream body;
         if(auto* CD = dyn_cast<CXXConstructorDecl>(F))
